@@ -10,6 +10,8 @@ R3  no early timeout: ETIMEDOUT is defined only under result=-1, errno=ETIMEDOUT
 R4  nsync_time_add keeps the nanosecond field normalised (the deadlines the library and its callers compute are valid kernel timeouts).
 R6  the wait loops of the cv / mu waits reach the deadline-carrying sleep in their first iteration on every path (= C05.R8): no spinning on an
     expired deadline.
+R7  ... and an expired deadline can be confirmed on every later iteration too: the remove_count snapshot is re-read before every enqueue that
+    leads to another timed sleep (= C05.R9); with a stale snapshot the timeout is never confirmed and the call spins past its deadline.
 R5  nsync_time_cmp orders every representable pair, extremes included (shared engine with C18).
 Promptness in wall-clock terms is not decided."""
 from .. import util, ir as IR, futexmodel
@@ -67,6 +69,9 @@ def run(ctx, rep):
     from .C05 import check_first_iteration_sleeps
     rep.rule('C15.R6', 'the first iteration of each wait loop reaches the deadline-carrying sleep: an expired deadline is applied at once, not spun on')
     check_first_iteration_sleeps(mod, rep, 'C15.R6')
+    from .C05 import check_snapshot_fresh
+    rep.rule('C15.R7', 'an expired deadline can be confirmed on every iteration: the remove_count snapshot is fresh at each enqueue before a timed sleep')
+    check_snapshot_fresh(mod, rep, 'C15.R7')
     rep.floor('C15.R4', 2)
     rep.floor('C15.R5', 6)
     rep.assumptions += ['deadlines have a normalised nanosecond field (0 <= ns < 1e9), as the property states for nsync_time values',
